@@ -3,6 +3,8 @@ import Driver.Collider
 import Driver.EarClip
 import Driver.Mesh
 import Driver.Csg
+import Driver.Dsu
+import Driver.HashT
 /-! `mvdriver`: reads one request per line on stdin, prints one answer per line.
 First token = engine. -/
 
@@ -13,6 +15,8 @@ def dispatch (line : String) : String :=
   | "earclip" :: rest => EarClip.handle rest
   | "mesh" :: rest => Mesh.handle rest
   | "csg" :: rest => Csg.handle rest
+  | "dsu" :: rest => Dsu.handle rest
+  | "hash" :: rest => HashT.handle rest
   | _ => "bad-engine"
 
 partial def loop (h : IO.FS.Stream) (out : IO.FS.Stream) : IO Unit := do
